@@ -12,6 +12,10 @@ CHECK = dict(
     units=[
         dict(name="filterstorage", dir=F + "filterstorage", src="C12/filterstorage", runs=[
             dict(name="histories", run="^TestVerifC12Histories$", quick=600, thorough=40000, shards_quick=2, shards_thorough=10, env=_ENV),
+        ]),
+        # A unit of its own: the driver writes one overlay file per unit name, and the plain and the -race build of one
+        # unit would write it concurrently.
+        dict(name="filterstorage_race", dir=F + "filterstorage", src="C12/filterstorage", runs=[
             dict(name="concurrent", run="^TestVerifC12Concurrent$", quick=60, thorough=3000, shards_thorough=4, race=True, env=_ENV),
         ]),
         dict(name="hashprefix", dir=F + "hashprefix", src="C12/hashprefix", runs=[
